@@ -560,6 +560,9 @@ func (e *env) mitm(ch string) bool {
 	o["mitm-cakey-file"] = []string{lib.DataURI(mitmCA.KeyPEM)}
 	o["mitm-domains"] = []string{`.*`, `-\Atunnel\.test\z`}
 	o["mitm-cache-ttl"] = []string{"0s"} // cached certificates never expire; their validity is another option
+	o["mitm-cache-size"] = []string{"1"} // every other host evicts the one before
+	o["mitm-validity"] = []string{"10m"}
+	o["mitm-org"] = []string{"Verif Wiring Org"}
 	o["cacert-file"] = []string{lib.DataURI(e.ca.CertPEM)}
 	c, err := e.child(ch, o, false)
 	if err != nil {
@@ -600,6 +603,21 @@ func (e *env) mitm(ch string) bool {
 		ok = false
 	}
 	in.Close()
+	// a cache of one certificate: alternating hosts still get a certificate for their own name
+	for i := 0; i < 6; i++ {
+		host := []string{"untrusted.test", "secure.test"}[i%2]
+		in, cs, err := handshake(host, mitmCA.Pool())
+		if err != nil {
+			e.viol("mitm:certificate-after-eviction", fmt.Sprintf("[%s] --mitm-cache-size=1, handshake #%d for %s against the configured MITM CA failed: %v", ch, i, host, err), nil)
+			ok = false
+			break
+		}
+		if leaf := cs.PeerCertificates[0]; time.Until(leaf.NotAfter) > 15*time.Minute || time.Until(leaf.NotAfter) <= 0 {
+			e.viol("mitm:validity-option", fmt.Sprintf("[%s] --mitm-validity=10m, the certificate for %s is valid until %v", ch, host, leaf.NotAfter), nil)
+			ok = false
+		}
+		in.Close()
+	}
 	// excluded from interception: the origin's own certificate (signed by e.ca) is seen
 	if in, _, err := handshake("tunnel.test", e.ca.Pool()); err != nil {
 		e.viol("mitm:excluded-domain", fmt.Sprintf("[%s] tunnel.test is excluded by mitm-domains, the client must see the origin's own certificate: %v", ch, err), nil)
@@ -939,7 +957,41 @@ func (e *env) eventStream(ch string) bool {
 			return false
 		}
 	}
+	if ch == "flags" {
+		e.eventStreamBodyLogging()
+	}
 	return true
+}
+
+// eventStreamBodyLogging: the same stream while the proxy module itself logs bodies.
+func (e *env) eventStreamBodyLogging() {
+	o := e.base()
+	o["log-http"] = []string{"body"}
+	c, err := e.child("flags", o, false)
+	if err != nil {
+		e.run.Inconclusive("wiring child: " + err.Error())
+		return
+	}
+	defer c.Stop()
+	for len(e.gate) > 0 {
+		<-e.gate
+	}
+	st, err := lib.Dial(c.ProxyAddr)
+	if err != nil {
+		return
+	}
+	defer st.Close()
+	fmt.Fprintf(st.C, "GET http://origin.test/sse HTTP/1.1\r\nHost: origin.test\r\nX-Vid: sse-body\r\n\r\n")
+	t0 := time.Now()
+	for !bytes.Contains(st.All.Bytes(), []byte("EVENT-ONE")) {
+		if _, err := st.ReadN(len(st.Buffered())+1, time.Until(t0.Add(4*time.Second))); err != nil {
+			e.gate <- struct{}{}
+			e.viol("event-stream:not-incremental:log-http-body", fmt.Sprintf("with --log-http body the first event of a stream was not delivered within 4 s (the origin sends the second one only after the client has the first): client received %q", lib.Trunc(st.All.String(), 300)), nil)
+			return
+		}
+	}
+	e.gate <- struct{}{}
+	e.run.Count("event_stream_under_body_logging_incremental", 1)
 }
 
 // tunnelOutlivesHeaderTimeout: --read-header-timeout concerns request heads, not tunnels.
